@@ -215,3 +215,95 @@ Proof.
   unfold c13_hash. rewrite nsec3_hash_rfc5155. split; [reflexivity|].
   destruct (N.to_nat iterations); apply sha1_length.
 Qed.
+
+(* ---- totality on well-formed zones: a SOA at the apex, no owner with two SOA records *)
+Definition soa_ok (g : group) : Prop := (count_occ N.eq_dec (snd g) rt_SOA <= 1)%nat.
+
+Lemma rrsets_count ts : forall t c, In (t, c) (rrsets ts) -> (c <= count_occ N.eq_dec ts t)%nat.
+Proof.
+  induction ts as [|x r IH]; intros t c Hin; cbn [rrsets] in Hin; [destruct Hin|].
+  destruct (rrsets r) as [|[t' c'] rs] eqn:E.
+  - destruct Hin as [Hin|[]]. injection Hin as <- <-. cbn [count_occ]. destruct (N.eq_dec x x); [lia|congruence].
+  - destruct (N.eqb_spec t' x) as [->|Hne].
+    + destruct Hin as [Hin|Hin].
+      * injection Hin as <- <-. cbn [count_occ]. destruct (N.eq_dec x x); [|congruence].
+        specialize (IH x c' (or_introl eq_refl)). lia.
+      * specialize (IH t c (or_intror Hin)). cbn [count_occ]. destruct (N.eq_dec x t); lia.
+    + destruct Hin as [Hin|Hin].
+      * injection Hin as <- <-. cbn [count_occ]. destruct (N.eq_dec x x); [lia|congruence].
+      * specialize (IH t c Hin). cbn [count_occ]. destruct (N.eq_dec x t); lia.
+Qed.
+
+Lemma rrset_loop_total at_cut cts : forall rs bm ttl,
+  (forall c, In (rt_SOA, c) rs -> (c <= 1)%nat) ->
+  exists bm' ttl', rrset_loop at_cut cts rs bm ttl = Ok (bm', ttl') /\
+    (ttl = true \/ memN rt_SOA (map fst rs) = true -> ttl' = true).
+Proof.
+  induction rs as [|[t c] rs IH]; intros bm ttl Hc; cbn [rrset_loop].
+  - exists bm, ttl. split; [reflexivity|]. intros [E|E]; [exact E|discriminate].
+  - assert (Hc' : forall c0, In (rt_SOA, c0) rs -> (c0 <= 1)%nat) by (intros c0 H0; apply Hc; right; exact H0).
+    destruct (N.eqb_spec t rt_SOA) as [->|Hne].
+    + cbv [soa_max_len]. destruct (Nat.ltb_spec 1 c) as [Hgt|_].
+      * specialize (Hc c (or_introl eq_refl)). lia.
+      * destruct (IH (if negb at_cut || memN rt_SOA cts then bm_add bm rt_SOA else bm) true Hc') as (bm' & ttl' & E & Hm).
+        exists bm', ttl'. split; [exact E|]. intros _. apply Hm. left. reflexivity.
+    + destruct (IH (if negb at_cut || memN t cts then bm_add bm t else bm) ttl Hc') as (bm' & ttl' & E & Hm).
+      exists bm', ttl'. split; [exact E|]. intros [X|X]; apply Hm; [left; exact X|right].
+      cbn [map fst] in X. unfold memN in *. cbn [existsb] in X.
+      destruct (N.eqb_spec t rt_SOA); [congruence|exact X].
+Qed.
+
+Lemma nsec_visit_total apex dk at_cut g ttl : soa_ok g -> (ttl = true \/ In rt_SOA (snd g)) ->
+  exists bm, nsec_visit apex dk at_cut g ttl = Ok (bm, true).
+Proof.
+  intros Hs Ht. unfold nsec_visit.
+  match goal with |- context [rrset_loop ?a ?b ?c ?d ?e] =>
+    destruct (rrset_loop_total a b c d e) as (bm' & ttl' & E & Hm) end.
+  - intros c Hc. apply rrsets_count in Hc. unfold soa_ok in Hs. lia.
+  - rewrite E. cbn [bind]. rewrite Hm; [eauto|].
+    destruct Ht as [X|X]; [left; exact X|right]. rewrite rrsets_fst. apply memN_In. exact X.
+Qed.
+
+Lemma nsec_loop_total apex dk : forall gs cut prev acc, Forall soa_ok gs ->
+  exists out, nsec_loop apex dk gs cut prev true acc = Ok out.
+Proof.
+  induction gs as [|g gs IH]; intros cut prev acc Hs; cbn [nsec_loop].
+  - unfold nsec_finish. destruct prev as [[pn bm]|]; eauto.
+  - inversion Hs as [|? ? Hg Hs']; subst.
+    destruct (negb (is_in_zone apex g)); [unfold nsec_finish; destruct prev as [[pn bm]|]; eauto|].
+    destruct (below_cut cut (fst g)); [apply IH; exact Hs'|].
+    destruct (nsec_visit_total apex dk (is_zone_cut apex g) g true Hg (or_introl eq_refl)) as (bm & E).
+    destruct prev as [[pn pbm]|]; cbn [bind]; rewrite E; cbn [bind]; apply IH; exact Hs'.
+Qed.
+
+Theorem nsec_total apex dk z : zone_sorted z -> has_type z apex rt_SOA ->
+  Forall soa_ok (groups (skip_before apex z)) ->
+  exists out, generate_nsecs apex dk z = Ok out.
+Proof.
+  intros Hs Hsoa Hok. unfold generate_nsecs.
+  assert (Hz : in_zone apex apex) by apply ends_with_refl.
+  destruct (group_of_name apex z Hs apex rt_SOA Hsoa Hz) as (g0 & Hg0 & Eg0).
+  pose proof (gs_sorted apex z Hs) as Hsorted. pose proof (gs_ge_apex apex z Hs) as Hge.
+  destruct (groups (skip_before apex z)) as [|h gs] eqn:Egs; [destruct Hg0|].
+  (* the head is the apex group *)
+  assert (Eh : name_eqb (fst h) apex = true).
+  { destruct Hg0 as [<-|Hin]; [exact Eg0|].
+    apply StronglySorted_inv in Hsorted as [_ Hh]. rewrite Forall_forall in Hh. specialize (Hh g0 Hin).
+    unfold owners_lt in Hh. rewrite (name_cmp_eq_r _ _ (fst h) Eg0) in Hh.
+    exfalso. apply (Hge h (or_introl eq_refl)). rewrite name_cmp_antisym, Hh. reflexivity. }
+  assert (Hzh : is_in_zone apex h = true) by (unfold is_in_zone; apply name_eqb_ends_with; exact Eh).
+  assert (Hsoah : In rt_SOA (snd h)).
+  { assert (Hh : In h (groups (skip_before apex z))) by (rewrite Egs; left; reflexivity).
+    apply (group_types apex z Hs h Hh Hzh). apply (has_type_eq_name z apex (fst h) rt_SOA); [rewrite name_eqb_sym; exact Eh|exact Hsoa]. }
+  inversion Hok as [|? ? Hh Hok']; subst.
+  cbn [nsec_loop]. rewrite Hzh. cbn [negb below_cut bind].
+  destruct (nsec_visit_total apex dk (is_zone_cut apex h) h false Hh (or_intror Hsoah)) as (bm & E).
+  rewrite E. cbn [bind]. apply nsec_loop_total. exact Hok'.
+Qed.
+
+Example ex_zone_total : Forall soa_ok (groups (skip_before ex_apex ex_zone)) /\ has_type ex_zone ex_apex rt_SOA.
+Proof.
+  split.
+  - vm_compute. repeat constructor.
+  - exists [[101; 120]]. split; [right; left; reflexivity|reflexivity].
+Qed.
